@@ -118,14 +118,14 @@ def run(pid, tier, seed):
                     v.append(s)
                     if s.get("op") in ("down", "up", "update"):
                         v.append({"op": "tick", "n": 1})
-                v += [{"op": "tick", "n": 6}, {"op": "rpc", "name": ""}]
+                v += [{"op": "tick", "n": 6}, {"op": "rpc", "name": "", "stream": i % 8 < 4}]
             derived.append(v)
         # the exhaustive histories are as long as the bound allows: a call is appended to a third of those that end in a
         # reconfiguration or an outage (what an RPC meets after the last input is what C16 is about)
         probes = []
         for i, h in enumerate(hists):
             if h and h[-1].get("op") in ("down", "up", "update"):
-                probes.append(h + [{"op": "rpc", "name": ""}, {"op": "rpc", "name": "m2"}])
+                probes.append(h + [{"op": "rpc", "name": "", "stream": i % 2 == 0}, {"op": "rpc", "name": "m2", "stream": i % 4 >= 2}])
         hists = hists + derived + probes
         for i, h in enumerate(hists):
             r_, d_ = TIMED[i % 3] if any(s.get("op") == "tick" for s in h) else (0, 0)
@@ -155,7 +155,7 @@ def run(pid, tier, seed):
                 st = [{"op": "new", "mes": [{"name": "m1", "eps": ["a", "b"]}, {"name": "m2", "eps": ["b", "a"]}], "def": "m1"}]
                 for j in range(6):
                     e = "ab"[(j + k) % 2]
-                    st += [{"op": "down", "e": e}, {"op": "rpc", "name": ""}, {"op": "up", "e": e}, {"op": "rpc", "name": "m2"}]
+                    st += [{"op": "down", "e": e}, {"op": "rpc", "name": "", "stream": j % 2 == 1}, {"op": "up", "e": e}, {"op": "rpc", "name": "m2", "stream": k % 2 == 1}]
                 st.append({"op": "close"})
                 flaps.append({"id": "flap-%d" % k, "steps": st})
             foutp = run_sharded(scratch, bing, flaps, "flap", {"VERIF_JITTER": "1"}, 4)
